@@ -74,6 +74,9 @@ fn seq_answer(bytes: &[u8], key: u64) -> String {
 }
 
 pub fn run(cases_path: &str, report_path: &str, _opts: &[String]) {
+    // the model is checked with a bound of 2 on the repeated loads of one outermost load (spec/Resolver*.cfg MaxRepeats);
+    // the library's own bound (2^16) is lowered to the same value through the verification hook
+    pdf::verif::set_repeat_bound(2);
     sched::install();
     install_panic_hook();
     let cases = read_cases(cases_path);
